@@ -341,11 +341,14 @@ pub fn one_case<R: Src>(r: &mut R, id: &str) -> Option<(IllCase, (String, String
             true
          },
          "unknown_relation_attribute" => {
-            let di = r.below(n_decl);
+            // on a relation or (half of the time, if there is one) on a lattice: the declarations of lattices are emitted
+            // by other code, in particular under the parallel macros
+            let lats: Vec<usize> = (0..n_decl).filter(|&i| prog.rels[i].is_lattice).collect();
+            let di = if !lats.is_empty() && r.chance(50) { lats[r.below(lats.len())] } else { r.below(n_decl) };
             let forms = [("plain", "#[frobnicate]"), ("path", "#[my_tool::frobnicate]"), ("with_args", "#[frobnicate(level = 3)]")];
             let (kind, text) = forms[r.below(forms.len())];
             new_items[di] = format!("{text} {}", items[di]);
-            site = format!("declaration:{kind}");
+            site = format!("declaration:{kind}{}", if prog.rels[di].is_lattice { "_on_lattice" } else { "" });
             expect = "accept";
             true
          },
